@@ -9,6 +9,7 @@
       authenticators/jwt_authenticator.go                   isCacheEnabled, getCacheTTL (JWK cache), WithConfig(ttl)
       authenticators/generic_authenticator.go               getCacheTTL, `a.ttl > 0` lookups, WithConfig(ttl)
       oauth2/clientcredentials/clientcredentials.go         isCacheEnabled, getCacheTTL
+      finalizers/oauth2_client_credentials_finalizer.go     WithConfig(cache_ttl)
       finalizers/jwt_finalizer.go                           `f.ttl > defaultCacheLeeway`, Set(ttl - leeway), WithConfig(ttl)
       authorizers/remote_authorizer.go                      `a.ttl > 0`, Set(ttl), WithConfig(ttl)
       contextualizers/generic_contextualizer.go             `h.ttl > 0`, Set(ttl), WithConfig(ttl)
@@ -51,11 +52,13 @@ Definition create_ttl (m : mech) (conf : option Z) : option Z :=
   end.
 
 (** [rule]: the `cache_ttl` (`ttl` for the jwt finalizer) of the rule-level
-    config, [None] when the rule does not set it.  remote authorizer (pinned):
+    config, [None] when the rule does not set it.  Client credentials: the
+    oauth2_client_credentials finalizer merges a rule-level `cache_ttl` like the
+    pointer-style authenticators; the endpoint auth strategy has no rule level
+    ([rule = None]).  remote authorizer (pinned):
     [x.IfThenElse(conf.CacheTTL > 0, conf.CacheTTL, a.ttl)] on a non-pointer. *)
 Definition withconfig_ttl (f : fixes) (m : mech) (st : option Z) (rule : option Z) : option Z :=
   match m with
-  | MClientCred => st
   | MRemote =>
       match rule with
       | None => st
